@@ -36,7 +36,9 @@ func short(fn string) string {
 	return strings.TrimPrefix(fn, risorPrefix)
 }
 
-func isRisor(fn string) bool { return strings.HasPrefix(fn, risorPrefix) || strings.HasPrefix(fn, risorRoot) }
+func isRisor(fn string) bool {
+	return strings.HasPrefix(fn, risorPrefix) || strings.HasPrefix(fn, risorRoot)
+}
 
 // panicSite returns the innermost risor function below the panic in a debug.Stack() dump taken in
 // the deferred function that recovered it (function name only: no line numbers, no addresses).
